@@ -35,13 +35,13 @@ type Ctx struct {
 
 	modFuncs []*ssa.Function // all functions of the module with bodies, sorted
 
-	unresolved []string // anchors that could not be resolved
+	unresolved  []string // anchors that could not be resolved
 	inlinedInto []string // reference functions that are gone and are looked at through their single caller
-	pure       map[*ssa.Function]int8
-	sites      map[*ssa.Function][]ssa.CallInstruction
-	bindParam  map[*ssa.Parameter]ssa.Value
-	curRoot    *ssa.Function // the function a guard-obligation context is analysing
-	stats      struct {
+	pure        map[*ssa.Function]int8
+	sites       map[*ssa.Function][]ssa.CallInstruction
+	bindParam   map[*ssa.Parameter]ssa.Value
+	curRoot     *ssa.Function // the function a guard-obligation context is analysing
+	stats       struct {
 		packages, functions, blocks, instrs int
 	}
 }
